@@ -78,14 +78,20 @@ class Flow(object):
             self.scope.locals.add(name.name)
             insert_loc(self._names, name)
 
-    @cached_property
+    @property
     def names(self):
         # type: () -> t.Mapping[str, Name | MultiName]
+        return loop_memo(self.scope.top, (self, 'names'), self._get_names)
+
+    def _get_names(self):
         return MergedDict({n.name: n for n in self._names}, self.parent_names)
 
-    @cached_property
+    @property
     def parent_names(self):
         # type: () -> t.Mapping[str, Name | MultiName ]
+        return loop_memo(self.scope.top, (self, 'parent_names'), self._get_parent_names)
+
+    def _get_parent_names(self):
         if len(self.parents) == 1:
             return self.parents[0].names  # type: ignore[return-value]
         elif len(self.parents) > 1:
@@ -125,6 +131,29 @@ class Flow(object):
         self.parents.append(LoopFlow(to))
 
 
+def loop_memo(top, key, func):
+    """Memoize func() for key. A value computed while some loop is being
+    resolved and which depends on that (unresolved) loop is valid only
+    until the resolution ends: keep it in the resolution-local memo."""
+    memo = top._loop_memo
+    for m in (memo[0], memo[-1]):
+        try:
+            value, deps = m[key]
+        except KeyError:
+            continue
+        top._loop_deps[-1].update(deps)
+        return value
+
+    top._loop_deps.append(set())
+    try:
+        value = func()
+    finally:
+        deps = top._loop_deps.pop()
+    top._loop_deps[-1].update(deps)
+    memo[-1 if deps else 0][key] = value, deps
+    return value
+
+
 class LoopFlow(object):
     if False:
         _names = None  # type: t.Mapping[str, Name | MultiName]
@@ -137,21 +166,23 @@ class LoopFlow(object):
     @property
     def names(self):
         # type: () -> t.Mapping[str, Name | MultiName] | Unresolved
+        top = self.parent.scope.top
         if self._resolving:
+            top._loop_deps[-1].add(self)
             return UNRESOLVED
 
-        try:
-            return self._names
-        except AttributeError:
-            pass
+        return loop_memo(top, self, self._resolve)
 
+    def _resolve(self):
+        top = self.parent.scope.top
         self._resolving = True
+        top._loop_memo.append({})
         try:
-            result = self._names = self.parent.names
+            return self.parent.names
         finally:
+            top._loop_memo.pop()
+            top._loop_deps[-1].discard(self)
             self._resolving = False
-
-        return result
 
 
 class SourceScope(Scope):
@@ -174,6 +205,8 @@ class SourceScope(Scope):
         self._star_imports = []
         self._attr_assigns = []
         self._global_names = {}
+        self._loop_memo = [{}]
+        self._loop_deps = [set()]
 
     def __repr__(self):
         # type: () -> str
